@@ -125,6 +125,30 @@ def shard(args):
     return F.n, F.bad
 
 
+def same_values_probe(F):
+    """state across calls: the array form of objects that hold the *same numbers* in different coordinate systems / flavors, converted one after
+    another in one process, is each time the array of that object's own system (guards against anything keyed on values rather than on types)"""
+    import vector
+    vals = [1.5, 0.75, 2.25, 9.5]
+    for rnd in (0, 1):
+        order = list(AR.systems()) if rnd == 0 else list(reversed(list(AR.systems())))
+        for system in order:
+            names = AR.names_of(system)
+            for mom in (False, True):
+                o = AR.obj_of(system, mom, dict(zip(names, vals)))
+                tag = f"[{','.join(system)}|{'mom' if mom else 'gen'}|round{rnd}]"
+                try:
+                    a = np.asanyarray(o)
+                    ok = isinstance(a, vector.backends.numpy.VectorNumpy) and isinstance(a, vector.Momentum) == mom and AR.sysof(a) == tuple(system) and \
+                        all(float(getattr(a, n)) == v for n, v in zip(names, vals))
+                    F.check("C19", f"probe/array-form-of-object-after-other-systems-with-equal-values/asanyarray{tag}", ok, dict(system=AR.sysof(a), names=a.dtype.names))
+                    p_ = np.asarray(o)
+                    okp = p_.dtype.names is not None and [_g(n) for n in p_.dtype.names] == list(names) and all(float(p_[n]) == v for n, v in zip(p_.dtype.names, vals))
+                    F.check("C19", f"probe/array-form-of-object-after-other-systems-with-equal-values/asarray{tag}", okp, dict(names=p_.dtype.names))
+                except Exception as e:
+                    F.check("C19", f"probe/array-form-of-object-after-other-systems-with-equal-values{tag}", False, f"{type(e).__name__}: {str(e)[:150]}")
+
+
 def _g(n):
     from vector._methods import _repr_momentum_to_generic
     return _repr_momentum_to_generic.get(n, n)
@@ -141,6 +165,10 @@ def main(argv):
     F = E.Fails()
     from .c16 import dtype_probe
     dtype_probe(F)
+    F2 = E.Fails()
+    same_values_probe(F2)
+    n += F2.n
+    bad += [(oid, d) for p, oid, d in F2.bad]
     n += F.n
     bad += [(oid.replace("C16/", "C19/"), d) for p, oid, d in F.bad]
     groups = {}
@@ -170,7 +198,11 @@ def replay(prop, rp, path):
     import re
     oid = rp["first"]["obligation"]
     m = re.search(r"\[([a-z,]+)\|(mom|gen)", oid)
-    if not m:
+    if "/probe/array-form-of-object" in oid:
+        F = E.Fails()
+        same_values_probe(F)
+        hit = [b for b in F.bad if b[1] == oid]
+    elif not m:
         F = E.Fails()
         from .c16 import dtype_probe
         dtype_probe(F)
